@@ -28,6 +28,14 @@ PY = "/venv/bin/python"
 NCPU = int(os.environ.get("VERIF_CPUS", os.cpu_count() or 4))
 
 
+_COUNTER = [0]
+
+
+def _uniq():
+  _COUNTER[0] += 1
+  return f"{os.getpid()}_{_COUNTER[0]}"
+
+
 class MachineryError(Exception):
   """Something in the verification machinery itself failed (exit 2)."""
 
@@ -94,7 +102,7 @@ def tlc(module, cfg=None, *, workers=None, work=None, env=None, timeout=3600,
   """Run TLC on spec/<module>.tla with spec/<cfg>.cfg."""
   cfg = cfg or module
   work = Path(work or (ROOT / ".work" / "tlc"))
-  meta = work / f"meta_{module}_{cfg}_{os.getpid()}_{int(time.time()*1000)%100000}"
+  meta = work / f"meta_{module}_{cfg}_{_uniq()}"
   meta.mkdir(parents=True, exist_ok=True)
   cmd = ["tlc", "-workers", str(workers or NCPU), "-metadir", str(meta),
          "-noGenerateSpecTE", "-config", f"{cfg}.cfg"]
@@ -163,20 +171,32 @@ def load_findings():
 # --------------------------------------------------------------------------
 
 class Check:
-  def __init__(self, pid, level, tier, seed):
+  _live = {}
+
+  def __init__(self, pid, level, tier, seed, parent=None):
+    """parent: build a throw-away sub-context (binding self-tests) that shares the parent's
+    scratch directory and never touches evidence; without it the scratch directory is wiped."""
     self.pid = pid
     self.level = level
     self.tier = tier
     self.seed = seed
     self.t0 = time.time()
-    base = ROOT / ".work" / pid
-    base.mkdir(parents=True, exist_ok=True)
-    for d in base.iterdir():          # wipe scratch of finished runs only
-      if d.name.isdigit() and not os.path.exists(f"/proc/{d.name}"):
-        shutil.rmtree(d, ignore_errors=True)
-    self.work = base / str(os.getpid())
-    shutil.rmtree(self.work, ignore_errors=True)
-    self.work.mkdir(parents=True, exist_ok=True)
+    if parent is not None:
+      self.work = parent.work
+    elif pid in Check._live:
+      # a second context for the same property inside one process (self-tests): share the
+      # scratch directory instead of wiping it under the first one
+      self.work = Check._live[pid]
+    else:
+      base = ROOT / ".work" / pid
+      base.mkdir(parents=True, exist_ok=True)
+      for d in base.iterdir():          # wipe scratch of finished runs only
+        if d.name.isdigit() and not os.path.exists(f"/proc/{d.name}"):
+          shutil.rmtree(d, ignore_errors=True)
+      self.work = base / str(os.getpid())
+      shutil.rmtree(self.work, ignore_errors=True)
+      self.work.mkdir(parents=True, exist_ok=True)
+      Check._live[pid] = self.work
     self.violations = []       # (key, what, replay_path)
     self.known_hits = {}       # key -> what
     self.selftests = []        # (name, passed)
@@ -229,7 +249,7 @@ class Check:
       raise MachineryError("no traces to validate")
     for i, t in enumerate(traces):
       t["tid"] = i + 1
-    f = self.work / f"traces_{module}_{len(traces)}_{int(time.time()*1000)%100000}.json"
+    f = self.work / f"traces_{module}_{len(traces)}_{_uniq()}.json"
     f.write_text(json.dumps(traces))
     r = tlc(module, cfg, workers=1, work=self.work, env={"TRACE_FILE": str(f)},
             timeout=timeout)
@@ -373,7 +393,7 @@ def run_workers(worker_module, jobs, *, x64=False, devices=None, nproc=None, tim
   results = [None] * len(chunks)
   pending = list(enumerate(chunks))
   running = []
-  tag = f"{worker_module.split('.')[-1]}_{os.getpid()}_{int(time.time()*1000)%1000000}"
+  tag = f"{worker_module.split('.')[-1]}_{_uniq()}"
   t_end = time.time() + timeout
   while pending or running:
     while pending and len(running) < nproc:
